@@ -64,7 +64,7 @@ def parsePolicy (s : String) : Option Policy :=
     let (drop, auth) ← parseFlags fl
     let sn ← parseSni sni
     let ids ← parseOpq opq
-    let ms : List Matcher := (match sn with | some names => [Matcher.sni names] | none => []) ++ ids.map Matcher.opaque
+    let ms : List Matcher := (match sn with | some names => [Matcher.sni names] | none => []) ++ ids.map Matcher.other
     pure ⟨ms, drop, auth⟩
   | _ => none
 
